@@ -8,12 +8,15 @@ versus the model: sequence of (prev, current) calls, positioned set before each 
 positioned set, placed_nodes, success flag.  The implementation is also judged directly:
 prev positioned / current unpositioned at every call, other molecules' rows untouched,
 success => every residue positioned exactly once."""
+import contextlib
+import io
 import itertools
 import json
+import os
 
 import numpy as np
 
-from harness import core
+from harness import core, systems
 from harness.coqio import lit, Raw
 
 META = {
@@ -247,7 +250,115 @@ def coq_handle(case, path, root):
             f"{lit(sorted(case['pre']))} 0%nat {att})")
 
 
+# ------------------------------------------------------------------ several copies of one molecule type in a real BuildSystem
+def copies_run(case):
+    """copies of one chain, the first k residues of copy 0 supplied by a residue-resolution coordinate file; scripted
+    placement failures in later copies; the engine is judged at the start of every attempt and at the end"""
+    import random as _random
+    import textwrap
+    from vermouth.forcefield import ForceField
+    from polyply.src.topology import Topology
+    from polyply.src.top_parser import read_topology
+    from polyply.src.build_system import BuildSystem
+    import polyply.src.random_walk as rw
+    nres, ncopies = case['nres'], case['ncopies']
+    atoms = "\n".join(f"{i} N0 {i} PEO BB {i} 0.00 45" for i in range(1, nres + 1))
+    bonds = "\n".join(f"{i} {i + 1} 1 0.47 2000" for i in range(1, nres))
+    lines = (["[ defaults ]", "1 1 no 1.0 1.0", "[ atomtypes ]", "N0 45.0 0.000 A 0.0 0.0", "[ nonbond_params ]", "N0 N0 1 4.7e-01 3.7e+00",
+              "[ moleculetype ]", "PEO 1", "[ atoms ]"] + atoms.split("\n") + ["[ bonds ]"] + bonds.split("\n") +
+             ["[ system ]", "s", "[ molecules ]", f"PEO {ncopies}"])
+    _random.seed(case['seed'])
+    np.random.seed(case['seed'])
+    sink = io.StringIO()
+    bad = []
+    with contextlib.redirect_stderr(sink), contextlib.redirect_stdout(sink):
+        topology = Topology(ForceField("t"))
+        read_topology(lines=lines, topology=topology, cwdir="./")
+        topology.preprocess()
+        topology.volumes = {"PEO": 0.43}
+        box = np.array([8.0, 8.0, 8.0])
+        if case['supplied']:
+            with systems.Workdir() as wd:
+                gro = os.path.join(wd, 'partial.gro')
+                with open(gro, 'w') as fh:
+                    fh.write("partial\n%5d\n" % case['supplied'])
+                    for i in range(case['supplied']):
+                        fh.write("{:5d}{:<5s}{:>5s}{:5d}{:8.3f}{:8.3f}{:8.3f}\n".format(i + 1, "PEO", "BB", i + 1, 1.0 + 0.47 * i, 1.0, 1.0))
+                    fh.write("{:10.5f}{:10.5f}{:10.5f}\n".format(*box))
+                topology.add_positions_from_file(gro, resolution="meta_mol")
+        user = {(mi, n): np.array(mol.nodes[n]['position'], dtype=float) for mi, mol in enumerate(topology.molecules) for n in mol.nodes
+                if not mol.nodes[n].get('build', True)}
+        builder = BuildSystem(topology, density=None, start_dict={i: None for i in range(ncopies)}, box=box, grid_spacing=1.0, maxiter=50)
+        attempts, calls = {}, {}
+
+        def registered(engine, gndx):
+            return sum(list(idxs).count(gndx) for idxs in engine.defined_idxs)
+
+        real_run, real_update = rw.RandomWalk.run_molecule, rw.RandomWalk.update_positions
+
+        def run_molecule(self, meta_molecule):
+            mi, engine = self.mol_idx, self.nonbond_matrix
+            attempts[mi] = attempts.get(mi, 0) + 1
+            for node in topology.molecules[mi].nodes:
+                if (mi, node) in user:
+                    continue
+                gndx = engine.nodes_to_gndx[(mi, node)]
+                if np.all(np.isfinite(engine.positions[gndx])) or registered(engine, gndx):
+                    bad.append(f"attempt {attempts[mi]} for molecule {mi} starts while residue {node} of an abandoned attempt is still "
+                               f"in the system (registered {registered(engine, gndx)}x)")
+            return real_run(self, meta_molecule)
+
+        def update_positions(self, vector_bundle, current_node, prev_node):
+            key = (self.mol_idx, attempts[self.mol_idx])
+            calls[key] = calls.get(key, 0) + 1
+            if [self.mol_idx, attempts[self.mol_idx], calls[key]] in case['fail']:
+                return False
+            return real_update(self, vector_bundle, current_node, prev_node)
+        rw.RandomWalk.run_molecule, rw.RandomWalk.update_positions = run_molecule, update_positions
+        try:
+            with systems.watchdog(60):
+                builder.run_system(topology.molecules)
+        finally:
+            rw.RandomWalk.run_molecule, rw.RandomWalk.update_positions = real_run, real_update
+        engine = builder.nonbond_matrix
+        for mi, mol in enumerate(topology.molecules):
+            for node in mol.nodes:
+                gndx = engine.nodes_to_gndx[(mi, node)]
+                if not np.all(np.isfinite(engine.positions[gndx])):
+                    bad.append(f"end: residue {node} of molecule {mi} has no position")
+                elif registered(engine, gndx) != 1:
+                    bad.append(f"end: residue {node} of molecule {mi} is registered {registered(engine, gndx)} times in the engine")
+        for (mi, node), ref in user.items():
+            if not np.array_equal(engine.positions[engine.nodes_to_gndx[(mi, node)]], ref):
+                bad.append(f"end: supplied residue {node} of molecule {mi} moved")
+    return bad, attempts
+
+
+def copies_cases(ctx, n, extra=()):
+    rng = ctx.rng
+    todo = list(extra)
+    for _ in range(n):
+        nres, ncopies = rng.randint(4, 6), rng.randint(2, 4)
+        fail = [[rng.randint(0 if rng.random() < 0.3 else 1, ncopies - 1), 1, rng.randint(1, nres - 1)] for _ in range(rng.randint(1, 2))]
+        todo.append({'nres': nres, 'ncopies': ncopies, 'supplied': rng.choice([0, 1, 2, nres - 1]), 'fail': fail, 'seed': rng.randrange(10 ** 6)})
+    for case in todo:
+        try:
+            bad, attempts = copies_run(case)
+        except Exception as exc:  # noqa
+            ctx.note(f"copies of one molecule type: {type(exc).__name__}: {str(exc)[:200]}")
+            ctx.case(('copies', json.dumps(case, sort_keys=True)), nontrivial=False)
+            continue
+        ctx.case(('copies', json.dumps(case, sort_keys=True)), nontrivial=any(v > 1 for v in attempts.values()), sample=case)
+        ctx.feature('copies_with_partly_supplied_first_copy' if case['supplied'] else 'copies_all_built')
+        if any(v > 1 for v in attempts.values()):
+            ctx.feature('copies_with_abandoned_attempt')
+        for b in bad[:1]:
+            ctx.violation('spec', f"C17 fails on the implementation: {b} ({case['ncopies']} copies of a {case['nres']}-residue chain, "
+                          f"{case['supplied']} residues of copy 0 supplied, scripted failures [molecule, attempt, call] {case['fail']})", {'copies': case})
+
+
 def run(ctx):
+    copies_cases(ctx, ctx.n(12, 120))
     ctx.correspondences += ['RandomWalk._random_walk with scripted outcomes vs model/Walk.v walk (positioned set, placed_nodes, success)',
                             'BuildSystem._handle_random_walk with scripted attempts vs model/Walk.v handle',
                             'implementation judged directly at every update_positions call (prev positioned, current not; other molecules untouched; success => all positioned once)']
@@ -376,6 +487,10 @@ def search(ctx):
 
 
 def replay(ctx, data):
+    if 'copies' in data:
+        bad, _ = copies_run(data['copies'])
+        print('replay:', bad[:2] or 'no residue of an abandoned attempt is left, every residue registered once')
+        return 1 if bad else 0
     print(json.dumps(data, indent=1, default=str)[:3000])
     case = data.get('case')
     if not case:
